@@ -109,11 +109,27 @@ func runTopology(rec *mon.Recorder, c int) {
 		return
 	}
 	// harness-known truth: per-partition (len, bytes) as reported by a hosting node
+	placement := map[int][]uint64{}
+	for i, pid := range pids {
+		placement[i] = cl.Nodes[0].Dataset(dsId).VerifPartitionNodeIds(pid)
+	}
+	replay := map[string]interface{}{"case": c, "seed": rec.Seed(), "desc": desc, "partition_sizes": want, "placement": placement}
+	hosts := func(i int, id uint64) bool {
+		for _, h := range placement[i] {
+			if h == id {
+				return true
+			}
+		}
+		return false
+	}
 	var sumLen, sumBytes uint64
 	for i, pid := range pids {
 		var l, b uint64
 		found := false
 		for _, n := range cl.Nodes {
+			if !hosts(i, n.Id) {
+				continue
+			}
 			if pl, pb2, err := n.Dataset(dsId).PartitionInfo(ctx, pid); err == nil {
 				if found && (pl != l || pb2 != b) {
 					rec.Inconclusive(fmt.Sprintf("%s: replicas of partition %d report different sizes while quiescent", desc, i))
@@ -128,12 +144,21 @@ func runTopology(rec *mon.Recorder, c int) {
 		}
 		sumLen += l
 		sumBytes += b
+		// the serving half of a remote lookup: a node that does not hold the
+		// partition must not answer for it with anything but its true size (a
+		// caller whose placement view lags would add that number to its sum)
+		for _, n := range cl.Nodes {
+			if hosts(i, n.Id) {
+				continue
+			}
+			pl, pb2, err := n.Dataset(dsId).PartitionInfo(ctx, pid)
+			rec.Count("lookups_served_by_non_hosting_nodes_checked", 1)
+			if err == nil && (pl != l || pb2 != b) {
+				rec.Violation("partitioninfo:non-hosting-node-answers-with-a-wrong-size", fmt.Sprintf("%s: node %d does not hold partition %d (placement %v) yet answers its size lookup with (%d,%d) and no error; the partition holds (%d,%d)", desc, n.Id, i, placement[i], pl, pb2, l, b), replay)
+				return
+			}
+		}
 	}
-	placement := map[int][]uint64{}
-	for i, pid := range pids {
-		placement[i] = cl.Nodes[0].Dataset(dsId).VerifPartitionNodeIds(pid)
-	}
-	replay := map[string]interface{}{"case": c, "seed": rec.Seed(), "desc": desc, "partition_sizes": want, "placement": placement}
 	checked := 0
 	for _, n := range cl.Nodes {
 		remote := 0
